@@ -815,7 +815,7 @@ class Product:
             # pending on this thread: the drained counter must already include the metric being handed over
             drn = [n for n in self.x.init['atomics'] if n.endswith('drained')]
             if drn:
-                upd['handed_bad'] = z3.Or(cur['handed_bad'], cur['at:' + drn[0]] != cur['dn'] + 1)
+                upd['handed_bad'] = z3.Or(cur['handed_bad'], z3.And(z3.UGE(cur['nh'], 1), cur['at:' + drn[0]] != cur['dn'] + 1))   # observable only through a live handle
         elif k == 'handler':
             upd['hcalls'] = cur['hcalls'] + 1
         elif k == 'wrapped_drop':
